@@ -62,6 +62,7 @@ theorem isId_mem {id : Nat} {l : List Nat} (h : 1 ≤ wsum (isId id) l) : id ∈
 def holdsW (id : Nat) : Pend → Nat
   | .ans _ i _ => isId id i
   | .touchMap _ i => isId id i
+  | .scan i => isId id i
   | _ => 0
 
 /-- in how many places is `id`: queue, deferred set, in-flight map, held by an answering goroutine -/
@@ -74,6 +75,7 @@ def pendOk (h : List Ev) (o : List (Nat × Nat)) : Pend → Prop
   | .ans _ i (.req d) => status h i = (if d = 0 then .queued else .deferred)
   | .ans k i .touch => status h i = .held k ∧ getA o i = k
   | .touchMap k i => status h i = .held k ∧ getA o i = k
+  | .scan i => status h i = .queued
   | _ => True
 
 structure MInv (s : MS) : Prop where
@@ -84,7 +86,7 @@ structure MInv (s : MS) : Prop where
   stm  : ∀ id ∈ s.map, status s.hist id = .held (getA s.owner id)
   stp  : ∀ p ∈ s.pend, pendOk s.hist s.owner p
   att  : ∀ id, getA s.atts id = nDeliver s.hist id
-  orph : ∀ id ∈ s.map, id ∈ s.heap ∨ Pend.push id ∈ s.pend ∨ Pend.scan id ∈ s.pend
+  orph : ∀ id ∈ s.map, id ∈ s.heap ∨ Pend.push id ∈ s.pend
 
 theorem minv_init : MInv {} := by
   constructor <;> simp [okHist, cnt, wsum, getA, nDeliver]
@@ -100,7 +102,9 @@ theorem pendOk_frame {h h' : List Ev} {o o' : List (Nat × Nat)} {p : Pend}
     have := hf i (by simp [holdsW, isId])
     simp only [pendOk] at *; simp [this.1, this.2, hp]
   | push i => trivial
-  | scan i => trivial
+  | scan i =>
+    have := hf i (by simp [holdsW, isId])
+    simp only [pendOk] at *; simp [this.1, hp]
 
 theorem holdsW_le_one (i : Nat) (p : Pend) : holdsW i p ≤ 1 := by
   cases p <;> simp [holdsW, isId] <;> split <;> omega
@@ -124,7 +128,10 @@ theorem pendOk_status {h : List Ev} {o : List (Nat × Nat)} {p : Pend} {i : Nat}
     subst this
     simp only [pendOk] at hp; simp [hp.1]
   | push j => simp [holdsW] at hw
-  | scan j => simp [holdsW] at hw
+  | scan j =>
+    have : j = i := by simp [holdsW, isId] at hw; exact hw
+    subst this
+    simp only [pendOk] at hp; simp [hp]
 
 theorem cnt_zero_of_none {s : MS} (h : MInv s) {id : Nat} (hn : status s.hist id = .none) : cnt s id = 0 := by
   have hq : wsum (isId id) s.queue = 0 := by
@@ -243,11 +250,10 @@ theorem minv_delMapPush {s : MS} (h : MInv s) {k id : Nat} (hq : id ∈ s.queue)
     · simp [getA, setA, nDeliver, hi, h.att i]
   · intro i hi
     rcases List.mem_cons.mp hi with rfl | hi
-    · exact Or.inr (Or.inl List.mem_cons_self)
-    · rcases h.orph i hi with a | a | a
+    · exact Or.inr (List.mem_cons_self)
+    · rcases h.orph i hi with a | a
       · exact Or.inl a
-      · exact Or.inr (Or.inl (List.mem_cons_of_mem _ a))
-      · exact Or.inr (Or.inr (List.mem_cons_of_mem _ a))
+      · exact Or.inr ((List.mem_cons_of_mem _ a))
 
 theorem minv_heapPush {s : MS} (h : MInv s) {id : Nat} (hp : Pend.push id ∈ s.pend) :
     MInv { s with heap := id :: s.heap, pend := s.pend.erase (Pend.push id) } := by
@@ -264,12 +270,11 @@ theorem minv_heapPush {s : MS} (h : MInv s) {id : Nat} (hp : Pend.push id ∈ s.
   · intro p hp'; exact h.stp p (List.mem_of_mem_erase hp')
   · exact h.att
   · intro i hi
-    rcases h.orph i hi with a | a | a
+    rcases h.orph i hi with a | a
     · exact Or.inl (List.mem_cons_of_mem _ a)
     · by_cases he : i = id
       · subst he; exact Or.inl List.mem_cons_self
-      · exact Or.inr (Or.inl ((List.mem_erase_of_ne (by simp [he])).mpr a))
-    · exact Or.inr (Or.inr ((List.mem_erase_of_ne (by simp)).mpr a))
+      · exact Or.inr (((List.mem_erase_of_ne (by simp [he])).mpr a))
 
 theorem status_ansEv_ne {k id i : Nat} (a : Ans) (h : List Ev) (hne : ¬ id = i) :
     status (ansEv k id a :: h) i = status h i := by
@@ -312,10 +317,9 @@ theorem minv_ansMapPop {s : MS} (h : MInv s) {k id : Nat} (a : Ans) (hm : id ∈
       exact status_ansEv_ne a _ (Ne.symm (holdsW_ne (hpf p hp) hw))
   · intro i; cases a <;> simp [ansEv, nDeliver, h.att i]
   · intro i hi
-    rcases h.orph i (List.mem_of_mem_erase hi) with a | a | a
+    rcases h.orph i (List.mem_of_mem_erase hi) with a | a
     · exact Or.inl a
-    · exact Or.inr (Or.inl (List.mem_cons_of_mem _ a))
-    · exact Or.inr (Or.inr (List.mem_cons_of_mem _ a))
+    · exact Or.inr ((List.mem_cons_of_mem _ a))
 
 /-- while an answering goroutine holds `id`, it is in none of the lists -/
 theorem held_free {s : MS} (h : MInv s) {p : Pend} {id : Nat} (hp : p ∈ s.pend) (hw : holdsW id p = 1) :
@@ -327,15 +331,13 @@ theorem held_free {s : MS} (h : MInv s) {p : Pend} {id : Nat} (hp : p ∈ s.pend
 
 theorem orph_erase {s : MS} (h : MInv s) {p : Pend} {id : Nat} (hp : p ∈ s.pend) (hw : holdsW id p = 1)
     {extra : List Pend} :
-    ∀ i ∈ s.map, i ∈ s.heap.erase id ∨ Pend.push i ∈ extra ++ s.pend.erase p ∨ Pend.scan i ∈ extra ++ s.pend.erase p := by
+    ∀ i ∈ s.map, i ∈ s.heap.erase id ∨ Pend.push i ∈ extra ++ s.pend.erase p := by
   intro i hi
   have hne : i ≠ id := fun he => (held_free h hp hw).2.2 (he ▸ hi)
   have hpp : ∀ j, Pend.push j ≠ p := by intro j he; subst he; simp [holdsW] at hw
-  have hps : ∀ j, Pend.scan j ≠ p := by intro j he; subst he; simp [holdsW] at hw
-  rcases h.orph i hi with a | a | a
+  rcases h.orph i hi with a | a
   · exact Or.inl ((List.mem_erase_of_ne hne).mpr a)
-  · exact Or.inr (Or.inl (List.mem_append_right _ ((List.mem_erase_of_ne (hpp i)).mpr a)))
-  · exact Or.inr (Or.inr (List.mem_append_right _ ((List.mem_erase_of_ne (hps i)).mpr a)))
+  · exact Or.inr ((List.mem_append_right _ ((List.mem_erase_of_ne (hpp i)).mpr a)))
 
 theorem minv_ansFinish_fin {s : MS} (h : MInv s) {k id : Nat} (hp : Pend.ans k id .fin ∈ s.pend) :
     MInv { s with heap := s.heap.erase id, pend := s.pend.erase (Pend.ans k id .fin) } := by
@@ -443,63 +445,31 @@ theorem minv_touchMapPush {s : MS} (h : MInv s) {k id : Nat} (hp : Pend.touchMap
   · exact h.att
   · intro i hi
     rcases List.mem_cons.mp hi with rfl | hi
-    · exact Or.inr (Or.inl List.mem_cons_self)
+    · exact Or.inr (List.mem_cons_self)
     · have := orph_erase h hp (id := id) (by simp [holdsW, isId]) (extra := [Pend.push id]) i hi
-      rcases this with a | a | a
+      rcases this with a | a
       · exact Or.inl (List.mem_of_mem_erase a)
-      · exact Or.inr (Or.inl (by simpa using a))
-      · exact Or.inr (Or.inr (by simpa using a))
+      · exact Or.inr ((by simpa using a))
 
-theorem minv_scanHeapPop {s : MS} (h : MInv s) {id : Nat} :
-    MInv { s with heap := s.heap.erase id, pend := Pend.scan id :: s.pend } := by
+theorem minv_scanStale {s : MS} (h : MInv s) {id : Nat} (hm : id ∉ s.map) :
+    MInv { s with heap := s.heap.erase id } := by
   constructor
   · exact h.okh
-  · intro i
-    have := h.one i
-    simp only [cnt, wsum, holdsW] at this ⊢
-    omega
+  · exact h.one
   · exact h.stq
   · exact h.std
   · exact h.stm
-  · intro p hp'
-    rcases List.mem_cons.mp hp' with rfl | hp'
-    · trivial
-    · exact h.stp p hp'
+  · exact h.stp
   · exact h.att
   · intro i hi
-    rcases h.orph i hi with a | a | a
-    · by_cases he : i = id
-      · subst he; exact Or.inr (Or.inr List.mem_cons_self)
-      · exact Or.inl ((List.mem_erase_of_ne he).mpr a)
-    · exact Or.inr (Or.inl (List.mem_cons_of_mem _ a))
-    · exact Or.inr (Or.inr (List.mem_cons_of_mem _ a))
+    have hne : i ≠ id := fun he => hm (he ▸ hi)
+    rcases h.orph i hi with a | a
+    · exact Or.inl ((List.mem_erase_of_ne hne).mpr a)
+    · exact Or.inr a
 
-theorem minv_scanMiss {s : MS} (h : MInv s) {id : Nat} (hm : id ∉ s.map) :
-    MInv { s with pend := s.pend.erase (Pend.scan id) } := by
-  by_cases hp : Pend.scan id ∈ s.pend
-  · constructor
-    · exact h.okh
-    · intro i
-      have := h.one i
-      have e := wsum_erase (w := holdsW i) hp
-      simp only [cnt, holdsW] at this ⊢ e
-      omega
-    · exact h.stq
-    · exact h.std
-    · exact h.stm
-    · intro p hp'; exact h.stp p (List.mem_of_mem_erase hp')
-    · exact h.att
-    · intro i hi
-      have hne : i ≠ id := fun he => hm (he ▸ hi)
-      rcases h.orph i hi with a | a | a
-      · exact Or.inl a
-      · exact Or.inr (Or.inl ((List.mem_erase_of_ne (by simp)).mpr a))
-      · exact Or.inr (Or.inr ((List.mem_erase_of_ne (by simp [hne])).mpr a))
-  · rw [List.erase_of_not_mem hp]; exact h
-
-theorem minv_scanMapPop {s : MS} (h : MInv s) {id : Nat} (hp : Pend.scan id ∈ s.pend) (hm : id ∈ s.map) :
-    MInv { s with map := s.map.erase id, pend := s.pend.erase (Pend.scan id),
-                  queue := id :: s.queue, hist := Ev.timeout id (getA s.owner id) :: s.hist } := by
+theorem minv_scanPop {s : MS} (h : MInv s) {id : Nat} (hm : id ∈ s.map) :
+    MInv { s with heap := s.heap.erase id, map := s.map.erase id, pend := Pend.scan id :: s.pend,
+                  hist := Ev.timeout id (getA s.owner id) :: s.hist } := by
   have h1 := h.one id
   have hm1 := mem_isId hm
   have hq : id ∉ s.queue := by
@@ -512,14 +482,11 @@ theorem minv_scanMapPop {s : MS} (h : MInv s) {id : Nat} (hp : Pend.scan id ∈ 
   · intro i
     have := h.one i
     have e := wsum_erase (w := isId i) hm
-    have e2 := wsum_erase (w := holdsW i) hp
-    simp only [cnt, wsum, holdsW] at this ⊢ e2
+    simp only [cnt, wsum, holdsW] at this ⊢
     omega
   · intro i hi
-    rcases List.mem_cons.mp hi with rfl | hi
-    · simp [status, evSt]
-    · have hne : ¬ id = i := fun he => hq (he ▸ hi)
-      simp [status, evSt, hne, h.stq i hi]
+    have hne : ¬ id = i := fun he => hq (he ▸ hi)
+    simp [status, evSt, hne, h.stq i hi]
   · intro i hi
     have hne : ¬ id = i := fun he => hd (he ▸ hi)
     simp [status, evSt, hne, h.std i hi]
@@ -527,17 +494,39 @@ theorem minv_scanMapPop {s : MS} (h : MInv s) {id : Nat} (hp : Pend.scan id ∈ 
     have ⟨hi1, hi2⟩ := mem_erase_ne h1 (m_le_cnt s id) hm hi
     simp [status, evSt, Ne.symm hi2, h.stm i hi1]
   · intro p hp'
-    have hp'' := List.mem_of_mem_erase hp'
-    refine pendOk_frame (fun i hw => ⟨?_, rfl⟩) (h.stp p hp'')
-    have hne : ¬ id = i := Ne.symm (holdsW_ne (hpf p hp'') hw)
-    simp [status, evSt, hne]
+    rcases List.mem_cons.mp hp' with rfl | hp'
+    · simp [pendOk, status, evSt]
+    · refine pendOk_frame (fun i hw => ⟨?_, rfl⟩) (h.stp p hp')
+      have hne : ¬ id = i := Ne.symm (holdsW_ne (hpf p hp') hw)
+      simp [status, evSt, hne]
   · intro i; simp [nDeliver, h.att i]
   · intro i hi
     have ⟨hi1, hi2⟩ := mem_erase_ne h1 (m_le_cnt s id) hm hi
-    rcases h.orph i hi1 with a | a | a
+    rcases h.orph i hi1 with a | a
+    · exact Or.inl ((List.mem_erase_of_ne hi2).mpr a)
+    · exact Or.inr (List.mem_cons_of_mem _ a)
+
+theorem minv_scanPut {s : MS} (h : MInv s) {id : Nat} (hp : Pend.scan id ∈ s.pend) :
+    MInv { s with pend := s.pend.erase (Pend.scan id), queue := id :: s.queue } := by
+  constructor
+  · exact h.okh
+  · intro i
+    have := h.one i
+    have e := wsum_erase (w := holdsW i) hp
+    simp only [cnt, wsum, holdsW] at this ⊢ e
+    omega
+  · intro i hi
+    rcases List.mem_cons.mp hi with rfl | hi
+    · have := h.stp _ hp; simpa [pendOk] using this
+    · exact h.stq i hi
+  · exact h.std
+  · exact h.stm
+  · intro p hp'; exact h.stp p (List.mem_of_mem_erase hp')
+  · exact h.att
+  · intro i hi
+    rcases h.orph i hi with a | a
     · exact Or.inl a
-    · exact Or.inr (Or.inl ((List.mem_erase_of_ne (by simp)).mpr a))
-    · exact Or.inr (Or.inr ((List.mem_erase_of_ne (by simp [hi2])).mpr a))
+    · exact Or.inr ((List.mem_erase_of_ne (by simp)).mpr a)
 
 theorem minv_deferDue {s : MS} (h : MInv s) {id : Nat} (hd : id ∈ s.deferred) :
     MInv { s with deferred := s.deferred.erase id, queue := id :: s.queue,
@@ -614,16 +603,15 @@ theorem step_minv {s : MS} (h : MInv s) (op : Op) : MInv (step s op).1 := by
       have := minv_touchMapPush h hp
       rw [if_neg this.1]; exact this.2
     · exact h
-  | scanHeapPop id =>
+  | scanPop id =>
     simp only [step]; split
-    · exact minv_scanHeapPop h
+    · split
+      · rename_i hm; exact minv_scanPop h hm
+      · rename_i hm; exact minv_scanStale h hm
     · exact h
-  | scanMapPop id =>
+  | scanPut id =>
     simp only [step]; split
-    · rename_i hp
-      split
-      · rename_i hm; exact minv_scanMapPop h hp hm
-      · rename_i hm; exact minv_scanMiss h hm
+    · rename_i hp; exact minv_scanPut h hp
     · exact h
   | deferDue id =>
     simp only [step]; split
@@ -648,11 +636,12 @@ theorem ansMapPop_foreign (s : MS) {k id : Nat} (ho : getA s.owner id ≠ k) (a 
     step s (.ansMapPop k id a) = (s, .fail) := by
   simp [step, ho]
 
-/-- … and the scan that popped the object from the heap only drops its own pointer (`goto exit`):
-no event, no change of queue, deferred set, map, heap or any message object. -/
-theorem scanMapPop_out (s : MS) {id : Nat} (hm : id ∉ s.map) :
-    (step s (.scanMapPop id)).2 ≠ .ok ∧
-    (step s (.scanMapPop id)).1 = { s with pend := s.pend.erase (Pend.scan id) } := by
+/-- … and the scan that meets a heap entry of an id which is no longer in the map (fix F16: checked
+in the same critical section as the heap pop) only drops that stale entry: no event, no change of
+queue, deferred set, map, pending continuations or any message object. -/
+theorem scanPop_out (s : MS) {id : Nat} (hm : id ∉ s.map) :
+    (step s (.scanPop id)).2 ≠ .ok ∧
+    (step s (.scanPop id)).1 = { s with heap := s.heap.erase id } := by
   simp only [step]; split
   · simp [hm]
   · rename_i hp; simp [List.erase_of_not_mem hp]
@@ -672,7 +661,7 @@ theorem pop_takes_it {s : MS} (h : MInv s) {id : Nat} {op : Op} (hp : isPopOf id
       · exact not_mem_erase_self h1 (m_le_cnt s i) hm
       · rename_i ho; rw [if_pos hm, if_neg ho] at hok; cases hok
     · rename_i hm; exact hm
-  | scanMapPop i =>
+  | scanPop i =>
     have : i = id := by simpa [isPopOf] using hp
     subst this
     simp only [step] at hok ⊢
@@ -698,7 +687,7 @@ theorem stays_out (s : MS) {id : Nat} (hm : id ∉ s.map) {op : Op} (hnp : isPus
   | ansMapPop k i a =>
     simp only [step]; repeat' split
     all_goals (first | exact hm | exact fun hx => hm (List.mem_of_mem_erase hx))
-  | scanMapPop i =>
+  | scanPop i =>
     simp only [step]; repeat' split
     all_goals (first | exact hm | exact fun hx => hm (List.mem_of_mem_erase hx))
   | ansFinish k i a =>
@@ -706,7 +695,7 @@ theorem stays_out (s : MS) {id : Nat} (hm : id ∉ s.map) {op : Op} (hnp : isPus
     all_goals exact hm
   | put i => simp only [step]; split <;> exact hm
   | heapPush i => simp only [step]; split <;> exact hm
-  | scanHeapPop i => simp only [step]; split <;> exact hm
+  | scanPut i => simp only [step]; split <;> exact hm
   | deferDue i => simp only [step]; split <;> exact hm
 
 theorem no_win_when_out (s : MS) {id : Nat} (hm : id ∉ s.map) (ops : List Op)
@@ -722,9 +711,9 @@ theorem no_win_when_out (s : MS) {id : Nat} (hm : id ∉ s.map) (ops : List Op)
         by_cases hi : i = id
         · subst hi; rw [ansMapPop_out s hm]; simp
         · simp [isPopOf, hi]
-      | scanMapPop i =>
+      | scanPop i =>
         by_cases hi : i = id
-        · subst hi; have := (scanMapPop_out s hm).1; simp [this]
+        · subst hi; have := (scanPop_out s hm).1; simp [this]
         · simp [isPopOf, hi]
       | _ => simp [isPopOf]
     simp [wins, hfail, hrest]
